@@ -2,6 +2,7 @@ package main
 
 import (
 	"fmt"
+	"os"
 	"go/types"
 
 	"golang.org/x/tools/go/ssa"
@@ -85,6 +86,9 @@ func (w *Worker) runnable() []*thread {
 // switchTo hands the token to t and parks the current thread until it is resumed.
 func (w *Worker) switchTo(t *thread) {
 	cur := w.curT
+	if debugPaths {
+		fmt.Fprintf(os.Stderr, "  switch #%d(%s) -> #%d(%s)\n", cur.id, cur.what, t.id, t.what)
+	}
 	if t == cur {
 		return
 	}
@@ -105,6 +109,9 @@ func (w *Worker) switchTo(t *thread) {
 
 // yield is a scheduling point: any runnable thread may continue.
 func (w *Worker) yield(what string) {
+	if w.initDepth > 0 {
+		return // package initialisation is not a scheduling point
+	}
 	if len(w.threads) <= 1 {
 		if w.curT != nil && w.curT.wait != nil && !w.curT.wait() {
 			w.idleOrDeadlock()
@@ -157,6 +164,12 @@ func (w *Worker) idleHook() bool {
 }
 
 func (w *Worker) deadlock() {
+	if debugPaths {
+		for _, t := range w.threads {
+			fmt.Fprintf(os.Stderr, "  DEADLOCK thread #%d done=%v blocked=%v what=%s cur=%v\n", t.id, t.done, t.wait != nil, t.what, t == w.curT)
+		}
+		fmt.Fprintf(os.Stderr, "  stack: %s\n", w.stackTrace())
+	}
 	if w.curT != w.mainT {
 		// report from the main thread's context
 		w.abort = deadlockAbort{}
@@ -176,7 +189,11 @@ func (w *Worker) reportDeadlock() {
 	}
 	if !w.inPrefix() {
 		w.ensureModel()
-		w.reportViolation("no-deadlock", "deadlock", w.libSite(), fmt.Sprintf("all threads blocked: %v", names), w.model)
+		id := "no-deadlock"
+		if w.deadlockID != "" {
+			id = w.deadlockID
+		}
+		w.reportViolation(id, "assert", w.cur.Name, fmt.Sprintf("all threads blocked forever: %v", names), w.model)
 	}
 	panic(pathEnd{"violation"})
 }
